@@ -1171,9 +1171,6 @@ def check_routes(rng, n_percent, n_format, known_ids=()):
         _bump(hist, f"{c[0]}/{route}/" + ("known" if is_known else "unknown") + ("/raise" if expect_raise else "/ok") + ("/reported" if reported else "/silent"))
         src = "; ".join(b)
         if expect_raise and is_known and not reported:
-            if route == "walrus" and c[0] == "percent" and "C17-annotated-template-unchecked" in known_ids:
-                _bump(hist, "known/C17-annotated-template-unchecked")
-                continue
             failures.append((f"[{route}] {src}", f"CPython raises {raised}; the template is statically known here, nothing reported", route))
         elif not expect_raise and reported:
             failures.append((f"[{route}] {src}", f"reported {reported[0]} but the statements run fine under CPython", route))
@@ -1810,8 +1807,6 @@ def run(tier: str, replay: str | None = None):
             route_n, route_fail, route_hist = check_routes(rng, 40 if tier == "quick" else 300, 25 if tier == "quick" else 200, known_ids)
         except Exception as ex:  # noqa
             rep.harness_error(f"route stream failed: {type(ex).__name__}: {ex}")
-    if route_hist.get("known/C17-annotated-template-unchecked"):
-        rep.known("C17-annotated-template-unchecked", next(f["what"] for f in findings if f["id"] == "C17-annotated-template-unchecked"))
     for src, what, route in route_fail[:5]:
         rep.violation({"kind": "failing-input", "input": {"kind": "statements", "route": route, "python": src},
                        "observed": what, "expected": "a formatting operation on a statically known template is reported iff CPython raises, by whatever syntactic route the template reaches it",
